@@ -113,3 +113,93 @@ class with_out_hashes:
             & sym.sym_eq(result.inp_info, self.inp_info),
     )
     modifies = []
+
+
+# ---------------------------------------------------------------- file digests and refreshed()
+
+from contracts.trusted import CancelEvent, FS_ENV, file_content  # noqa: E402
+from vc.sym import SymBytes, SymStr  # noqa: E402
+
+excmod = extract.import_module("stepup/core/exceptions.py")
+HashCancelledError, HashFailedError = excmod.HashCancelledError, excmod.HashFailedError
+
+
+def content_digest(path):
+    return wrap_bytes(trusted.sha256_term(file_content(S(path))))
+
+
+@contract("stepup/core/hash.py::compute_file_digest", props=["C13"])
+class compute_file_digest:
+    args = dict(path=ty.Str, follow_symlinks=ty.Bool, cancel_event=ty.Opt(ty.Make(CancelEvent)))
+    env = FS_ENV
+    requires = lambda follow_symlinks: follow_symlinks == True  # noqa: E712  (the only use in core)
+    may_raise = {HashCancelledError: lambda cancel_event: ~sym.wrap_bool(cancel_event.isnone)
+                 if isinstance(cancel_event, sym.SymOpt) else cancel_event is not None,
+                 HashFailedError: None, OSError: None}
+    ensures = lambda path, result: result == content_digest(path)
+    result = ty.Bytes
+    modifies = []
+    loops = {0: LoopSpec(
+        invariant=lambda e: (e.digest.fed == wrap_bytes(
+            tm.Substr(e.fh.content, tm.mk_int(0), sym.I(e.fh.pos))))
+            & (e.fh.pos >= 0) & sym.wrap_bool(tm.Le(sym.I(e.fh.pos), tm.Len(e.fh.content))),
+        decreases=lambda e: sym.wrap_int(tm.Sub(tm.Len(e.fh.content), sym.I(e.fh.pos))),
+        havoc=("fh", "buf", "digest"))}
+
+
+def _stat_event(trace):
+    evs = [e for e in trace if e.kind == "os.stat"]
+    return evs[0] if evs else None
+
+
+def is_unknown_rec(fh):
+    return (fh.digest == b"u") & (fh.mode == 0) & (fh.size == 0)
+
+
+def _refreshed_post(self, path, result, trace):
+    ev = _stat_event(trace)
+    if ev is None:
+        return False
+    if not ev.ok:
+        # stat failed: unknown; `self` is returned when it already is unknown
+        return is_unknown_rec(result) & sym.wrap_bool(tm.Implies(B(self.digest == b"u"), B(sym.is_(result, self))))
+    st = ev.st
+    same = ((self.mode == st.st_mode) & sym.sym_eq(self.mtime, st.st_mtime) & (self.size == st.st_size)
+            & (self.inode == st.st_ino))
+    fresh = ((result.digest == content_digest(path)) & (result.mode == st.st_mode)
+             & (result.size == st.st_size) & (result.inode == st.st_ino)
+             & sym.sym_eq(result.mtime, st.st_mtime))
+    # property: "reported as changed whenever its modification time, size, inode or mode differs":
+    # only when all four agree may the recorded hash be returned; otherwise the content is re-read.
+    return sym.wrap_bool(tm.Ite(B(same), B(sym.is_(result, self)), B(fresh)))
+
+
+@contract("stepup/core/hash.py::FileHash.refreshed", props=["C13", "C04", "C06"])
+class refreshed:
+    args = dict(self=FileHashRec, path=ty.Str, cancel_event=ty.Opt(ty.Make(CancelEvent)))
+    env = FS_ENV
+    may_raise = {HashCancelledError: lambda cancel_event: cancel_event is not None,
+                 HashFailedError: None, OSError: None}
+    ensures_named = dict(
+        result=_refreshed_post,
+        valid=lambda result: valid_file_hash(result),
+    )
+    result = FileHashRec
+    modifies = []
+
+
+@contract("stepup/core/hash.py::FileHash.unknown", props=["C13"])
+class unknown:
+    args = dict(cls=lambda a: engine.RepoClass(FileHash))
+    ensures = lambda result: is_unknown_rec(result) & valid_file_hash(result)
+    result = FileHashRec
+    modifies = []
+
+
+@contract("stepup/core/hash.py::FileHash.is_unknown", props=["C13"])
+class is_unknown:
+    args = dict(self=FileHashRec)
+    # under the class invariant, the digest placeholder alone identifies an unknown hash
+    ensures = lambda self, result: sym.wrap_bool(tm.Iff(B(result), B(is_unknown_rec(self))))
+    result = ty.Bool
+    modifies = []
